@@ -102,6 +102,10 @@ def one_case(rng, tmp):
     reqs = [rng.choice(all_names) for _ in range(rng.randint(1, 4))]
     if rng.random() < 0.5:
         reqs.append(rng.sample(all_names, min(2, len(all_names))))
+    if rng.random() < 0.4:
+        # a list request may name a member more than once: every requested member is concatenated
+        a, b = rng.choice(all_names), rng.choice(all_names)
+        reqs.append(rng.choice([[a, a], [a, b, a], [b, a, a]]))
     fails = []
     impl = {}
     with warnings.catch_warnings():
